@@ -12,7 +12,6 @@ virtual clock and compared with the documented jittered exponential bounds.
 """
 import asyncio
 import errno
-import itertools
 import logging
 import socket
 
@@ -545,12 +544,12 @@ def plan(tier):
         blocks += [((a,), full, 1, 2, VARIANTS, 7, None, True) for a in full]
         blocks += [((a, b), full, 3, 3, ('plain',), 7, None, True) for a in full for b in full]
         blocks += [((a, b), core, 3, 3, ('delayed', 'debug0', 'debug-late'), 7, None, False) for a in core for b in core]
-        blocks += [((a, b), core, 4, 5, ('plain', 'debug-late'), 7, None, True) for a in core for b in core]
+        blocks += [((a, b), core, 4, 5, ('plain',), 7, None, True) for a in core for b in core]
         blocks += [((a, b, c), core, 6, 7, ('plain',), 0, 0, True) for a in core for b in core for c in core]
-        blocks += [((a, b, c), core6, 6, 7, ('plain',), 0, 1, False) for a in core6 for b in core6 for c in core6]
+        blocks += [((a, b, c), core5, 6, 7, ('plain',), 0, 1, False) for a in core5 for b in core5 for c in core5]
         desc = (f'all {nA} symbols: every sequence of <= 3 failures (<= 2: x 4 helper variants); core 8 symbols: every sequence of <= 5 '
-                'failures x 2 variants; both jitter extremes at every draw.  Core 8 symbols: every sequence of 6..7 failures with jitter '
-                'all-min and all-max; core 6 symbols additionally with every single draw flipped')
+                'failures (<= 3: x 4 variants); both jitter extremes at every draw.  Core 8 symbols: every sequence of 6..7 failures with jitter '
+                'all-min and all-max; core 5 symbols (transient, rate-limit, limited-only, limited+transient, permanent) additionally with every single draw flipped')
     # blocks whose prefix is already past a mandatory raise produce nothing new
     keep = []
     for b in blocks:
